@@ -1,5 +1,7 @@
 package main
 
+import "golang.org/x/tools/go/ssa"
+
 // hasBoundVar reports whether an SMT term mentions a quantifier-bound variable.
 // Bound variables are named name!q<N>, name!d<N>, name!l<N>, name!pa<N>, name!ax, k!a<N>, k!c<N>;
 // fresh constants are named hint!<N> (digits only).
@@ -59,4 +61,11 @@ func (ex *Exec) declOfBytes() {
 		c.decl("ax:ofbytes.len", "(assert (forall ((a (Array Int Int)) (o Int) (n Int)) (! (=> (>= n 0) (= (str.len (str.ofbytes a o n)) n)) :pattern ((str.ofbytes a o n)))))")
 		c.decl("ax:ofbytes.at", "(assert (forall ((a (Array Int Int)) (o Int) (n Int) (i Int)) (! (=> (and (<= 0 i) (< i n)) (= (str.at (str.ofbytes a o n) i) (select a (+ o i)))) :pattern ((str.at (str.ofbytes a o n) i)))))")
 	}
+}
+
+func calleeOriginName(f *ssa.Function) string {
+	if o := f.Origin(); o != nil {
+		return o.String()
+	}
+	return f.String()
 }
